@@ -100,8 +100,6 @@ def parse(cmd: str):
                 i = j + 1
                 started = True
             elif c in SAFE_UNQUOTED:
-                if not started and not parts and c == "=":
-                    raise Unsafe("leading =")
                 parts.append(c)
                 i += 1
                 started = True
